@@ -108,6 +108,46 @@ def table_obligations(run, lexmod):
     want = dict((w, w.upper()) for w in es5_lexical.RESERVED_WORDS)
     e3(run, 'table.keywords', dict(kw) == want, 'keywords_dict = ES5 reserved words (7.6.1) mapped to their token names',
        witness=sorted(set(kw.items()) ^ set(want.items()))[:3])
+    # look-alikes of the reserved words: every identifier obtained from a reserved word by replacing characters with ones that Python's
+    # case mappings or compatibility normalisation send to them (long s, dotless i, ligatures, full-width letters, upper case)
+    # is an identifier, not the keyword
+    import unicodedata
+    alike = {}
+    for cp in range(0x80, 0x10000):
+        ch = chr(cp)
+        for img in set((ch.lower(), ch.upper().lower(), ch.casefold(), unicodedata.normalize('NFKC', ch).lower())):
+            if img.isascii() and img.isalpha() and 1 <= len(img) <= 3:
+                alike.setdefault(img, []).append(ch)
+    variants = set()
+    for w in es5_lexical.RESERVED_WORDS:
+        variants.add(w.upper())
+        variants.add(w.capitalize())
+        for i in range(len(w)):
+            for ln in (1, 2, 3):
+                for ch in alike.get(w[i:i + ln], ())[:6] if len(w[i:i + ln]) == ln else ():
+                    variants.add(w[:i] + ch + w[i + ln:])
+    wrong = []
+    nvar = 0
+    for v in sorted(variants):
+        lxv = Lexer()
+        lxv.input(v)
+        try:
+            toks_ = []
+            while True:
+                t_ = lxv.token()
+                if not t_:
+                    break
+                toks_.append(t_)
+        except Exception:
+            continue            # not an identifier of this lexer at all (the identifier classes are C03's business)
+        if len(toks_) != 1 or toks_[0].value != v:
+            continue
+        nvar += 1
+        if toks_[0].type != 'ID':
+            wrong.append((v, toks_[0].type))
+    e3(run, 'table.keyword_lookalikes', not wrong, '%d look-alike spellings of reserved words (case variants, characters whose case mapping or '
+       'NFKC form is an ASCII letter sequence) are lexed as identifiers' % nvar, witness=wrong[:3],
+       required='an identifier is classified as a keyword only on exact match')
     # master regular expression of the real built lexer: alternation order (ply tries alternatives in order)
     lx = Lexer()
     order = []
